@@ -10,6 +10,7 @@ import Gotree.Lemmas.C01Codec
 import Gotree.Lemmas.C01GoCodec
 import Gotree.Lemmas.C01Lit
 import Gotree.Lemmas.C01GoRead
+import Gotree.Lemmas.C01Witness
 
 namespace Gotree.C01
 open Gotree Gotree.Newick
@@ -140,6 +141,76 @@ theorem parseMany_writes (C : FloatCodec) (ts : List T) (h : ∀ t ∈ ts, WF01 
     simp only [List.flatMap_cons, List.map_cons, List.cons_append]
     rw [parseMany_ok _ _ _ _ (parseR_write C t _ hr), ih (fun t' ht' => h t' (List.mem_cons_of_mem _ ht'))]
 
+theorem parseWhileMore_ok (C : Codec) (inp : List Char) (t : T) (r : List Char) (h : Newick.parseR C inp = .ok (t, r)) :
+    Newick.parseWhileMore C inp = .ok t :: (if Newick.more C r then Newick.parseWhileMore C (skipWs C r) else []) := by
+  rw [Newick.parseWhileMore]
+  split
+  · rename_i t' r' h'; rw [h] at h'; cases h'; rfl
+  all_goals (rename_i m h'; rw [h] at h'; cases h')
+
+/-- the text of a tree with at least one child starts with `(` -/
+theorem write_head (C : Codec) (t : T) (h : t.kids ≠ []) : ∃ r, Newick.write C t = '(' :: r := by
+  cases t with
+  | node d pp ks =>
+    cases ks with
+    | nil => exact absurd rfl h
+    | cons k ks =>
+      exact ⟨writeKids C true (k :: ks) ++ ')' :: (d.name.toList ++ (writeComments d.comments ++ [';'])), by simp [Newick.write, writeNode]⟩
+
+/-- `Parser.More` + `Parse` in the loop of `ReadMultiTrees` (3850fd2): on the concatenation of the texts of
+    WF01 trees the loop delivers exactly these trees and stops without an error. -/
+theorem parseWhileMore_writes (C : FloatCodec) (t : T) (ts : List T) (h : ∀ u ∈ t :: ts, WF01 C.isFloat C.dom u = true) :
+    Newick.parseWhileMore C.toCodec ((t :: ts).flatMap (Newick.write C.toCodec)) =
+      (t :: ts).map (fun u => Newick.Outcome.ok u.normIds) := by
+  induction ts generalizing t with
+  | nil =>
+    have ht := h t (List.mem_cons_self ..)
+    have hr : WF01r C.isFloat C.dom t = true := by
+      cases t with
+      | node d pp ks =>
+        simp only [WF01, Bool.and_eq_true, decide_eq_true_eq] at ht
+        obtain ⟨⟨⟨hlen, hin⟩, hcs⟩, hkids⟩ := ht
+        simp only [WF01r, Bool.and_eq_true, decide_eq_true_eq, Bool.or_eq_true, bne_iff_ne, ne_eq]
+        exact ⟨⟨⟨⟨by omega, Or.inl (by omega)⟩, hin⟩, hcs⟩, hkids⟩
+    have := parseR_write C t [] hr
+    simp only [List.flatMap_cons, List.flatMap_nil, List.map_cons, List.map_nil]
+    rw [parseWhileMore_ok _ _ _ _ this]
+    simp [Newick.more, scanIW, skipWs, scan]
+  | cons t2 ts ih =>
+    have ht := h t (List.mem_cons_self ..)
+    have hr : WF01r C.isFloat C.dom t = true := by
+      cases t with
+      | node d pp ks =>
+        simp only [WF01, Bool.and_eq_true, decide_eq_true_eq] at ht
+        obtain ⟨⟨⟨hlen, hin⟩, hcs⟩, hkids⟩ := ht
+        simp only [WF01r, Bool.and_eq_true, decide_eq_true_eq, Bool.or_eq_true, bne_iff_ne, ne_eq]
+        exact ⟨⟨⟨⟨by omega, Or.inl (by omega)⟩, hin⟩, hcs⟩, hkids⟩
+    have ht2 := h t2 (List.mem_cons_of_mem _ (List.mem_cons_self ..))
+    have hk2 : t2.kids ≠ [] := by
+      cases t2 with
+      | node d pp ks =>
+        simp only [WF01, Bool.and_eq_true, decide_eq_true_eq] at ht2
+        intro hnil
+        simp only [T.kids_node] at hnil
+        rw [hnil] at ht2
+        simp at ht2
+    obtain ⟨r2, hw2⟩ := write_head C.toCodec t2 hk2
+    have hrest : (t2 :: ts).flatMap (Newick.write C.toCodec) = '(' :: (r2 ++ ts.flatMap (Newick.write C.toCodec)) := by
+      simp [List.flatMap_cons, hw2]
+    have hP := parseR_write C t ((t2 :: ts).flatMap (Newick.write C.toCodec)) hr
+    have hflat : (t :: t2 :: ts).flatMap (Newick.write C.toCodec) =
+        Newick.write C.toCodec t ++ (t2 :: ts).flatMap (Newick.write C.toCodec) := by simp [List.flatMap_cons]
+    rw [hflat, parseWhileMore_ok _ _ _ _ hP]
+    obtain ⟨hs, hk⟩ := scanIW_char C.toCodec '(' (r2 ++ ts.flatMap (Newick.write C.toCodec)) .openpar (scan_openpar _ _) (by decide)
+    have hmore : Newick.more C.toCodec ((t2 :: ts).flatMap (Newick.write C.toCodec)) = true := by
+      rw [hrest]; simp [Newick.more, hs]
+    have hskip : skipWs C.toCodec ((t2 :: ts).flatMap (Newick.write C.toCodec)) = (t2 :: ts).flatMap (Newick.write C.toCodec) := by
+      rw [hrest]; exact hk
+    rw [hmore, hskip]
+    simp only [if_true, List.map_cons]
+    rw [ih t2 (fun u hu => h u (List.mem_cons_of_mem _ hu))]
+    simp
+
 /-- ★ Reading back what the writer wrote gives the same tree: same shape, child order, names, lengths,
     supports, p-values, node comments and branch comments; only the branch ids are renumbered in creation
     order and the parent positions are 0 (`T.normIds`).  Character level, any size, any degree. -/
@@ -197,9 +268,9 @@ theorem write_injective_on_WF01 (C : FloatCodec) (t₁ t₂ : T) (h₁ : WF01 C.
   rw [heq] at s2
   exact sameTree_euclid t₁ t₂ _ s1 s2
 
-/-- ★ for the executable codec: the round trip of the very functions the driver runs against the Go code
-    (`parse goCodec`, `write goCodec`), for every tree whose values pass the decidable check `goDom`
-    (the driver evaluates `WF01 goCodec.isFloat goDom` on every case: tag `godom`). -/
+/-- (not a flagship statement) `goDom x` IS the second and third codec law for the value `x`, checked by
+    evaluation: for the numbers this theorem restates its hypothesis; it is kept because `goDomS_goDom`
+    factors through it.  The statement with content is `parse_write_goS` below. -/
 theorem parse_write_go (t : T) (h : WF01 goCodec.isFloat goDom t = true) :
     Newick.parse goCodec (Newick.write goCodec t) = .ok t.normIds :=
   parse_write goFloatCodec t h
@@ -258,85 +329,50 @@ theorem scanPinned_nul_fails (C : Codec) (r : List Char) :
     (scanPinned C false ('a' :: '\x00' :: 'b' :: ',' :: r)).2.2 = 'b' :: ',' :: r := by
   simp [scanPinned, isWhitespace, isIdent, List.takeWhile, List.dropWhile, dropNul]
 
-/-! ### every clause of the quantifier is needed: concrete witnesses (lawful codec `ratCodec`) on which
-    the model's own round trip fails once ONE clause of WF01 is dropped -/
-
-def leafE (len : Rat) (name : String) : EdgeD × T := (⟨len, NIL, NIL, [], 0⟩, T.leaf name)
-def innerAB (e : EdgeD) (d : NodeD) : EdgeD × T := (e, .node d 0 [leafE NIL "a", leafE NIL "b"])
-def root3 (k : EdgeD × T) : T := .node ⟨"", []⟩ 0 [k, leafE NIL "c"]
-
-/-- a tip name with a trailing blank is trimmed by the parser -/
-theorem needs_trimmed_tip : roundTripModel ratCodec.toCodec (root3 (leafE NIL "x ")) = false := by decide +kernel
-/-- a tip name with a leading blank loses it in the lexer -/
-theorem needs_no_leading_blank : roundTripModel ratCodec.toCodec (root3 (leafE NIL " x")) = false := by decide +kernel
-/-- a numeric-looking inner name comes back as a support -/
-theorem needs_nonnumeric_inner_name :
-    roundTripModel ratCodec.toCodec (root3 (innerAB ⟨NIL, NIL, NIL, [], 0⟩ ⟨"12r1", []⟩)) = false := by decide +kernel
-/-- a float/float inner name comes back as support and p-value -/
-theorem needs_not_float_slash_float :
-    roundTripModel ratCodec.toCodec (root3 (innerAB ⟨NIL, NIL, NIL, [], 0⟩ ⟨"1r2/1r4", []⟩)) = false := by decide +kernel
-/-- a second branch comment comes back as a node comment -/
-theorem needs_one_branch_comment :
-    roundTripModel ratCodec.toCodec (root3 (innerAB ⟨1, NIL, NIL, ["x", "y"], 0⟩ ⟨"", []⟩)) = false := by decide +kernel
-/-- a branch comment on a branch without length comes back as a node comment -/
-theorem needs_length_for_branch_comment :
-    roundTripModel ratCodec.toCodec (root3 (innerAB ⟨NIL, NIL, NIL, ["x"], 0⟩ ⟨"", []⟩)) = false := by decide +kernel
-/-- a support next to a name is not written -/
-theorem needs_name_xor_support :
-    roundTripModel ratCodec.toCodec (root3 (innerAB ⟨NIL, 1/2, NIL, [], 0⟩ ⟨"N", []⟩)) = false := by decide +kernel
-/-- a p-value without support is not written -/
-theorem needs_support_for_pvalue :
-    roundTripModel ratCodec.toCodec (root3 (innerAB ⟨NIL, NIL, 1/2, [], 0⟩ ⟨"", []⟩)) = false := by decide +kernel
-/-- a support on a tip branch is not written -/
-theorem needs_no_support_on_tip :
-    roundTripModel ratCodec.toCodec (root3 (⟨NIL, 1/2, NIL, [], 0⟩, T.leaf "x")) = false := by decide +kernel
-/-- a `]` inside a comment ends it -/
-theorem needs_comment_without_bracket :
-    roundTripModel ratCodec.toCodec (root3 (innerAB ⟨NIL, NIL, NIL, [], 0⟩ ⟨"", ["a]b"]⟩)) = false := by decide +kernel
-/-- a metacharacter inside a name splits it -/
-theorem needs_no_metachar : roundTripModel ratCodec.toCodec (root3 (leafE NIL "x:y")) = false := by decide +kernel
-/-- quoting does not protect a metacharacter: the parser knows no quotes (`'x,y'` is two tips) -/
-theorem needs_no_metachar_even_quoted : roundTripModel ratCodec.toCodec (root3 (leafE NIL "'x,y'")) = false := by decide +kernel
-/-- … while quotes, blanks inside and NHX-style comments as such are harmless -/
-theorem quotes_blanks_nhx_roundtrip :
-    roundTripModel ratCodec.toCodec (root3 (innerAB ⟨1, NIL, NIL, ["&&NHX:S=x:E=1.1.1"], 0⟩ ⟨"'Homo sapiens'", ["&&NHX:B=100", "&!color=#ff0000"]⟩)) = true ∧
-    roundTripModel ratCodec.toCodec (root3 (leafE 2 "it''s \"x\" y")) = true := by decide +kernel
-/-- a numeric-looking root name is ignored by the parser ("support attached to the root") -/
-theorem needs_nonnumeric_root_name :
-    roundTripModel ratCodec.toCodec (.node ⟨"1r2", []⟩ 0 [leafE NIL "a", leafE NIL "b"]) = false := by decide +kernel
-/-- and the same shapes inside WF01 do round-trip (the witnesses are not broken for another reason) -/
-theorem witnesses_control :
-    roundTripModel ratCodec.toCodec (root3 (leafE NIL "x")) = true ∧
-    roundTripModel ratCodec.toCodec (root3 (innerAB ⟨1, 1/2, 1/4, ["x"], 0⟩ ⟨"", ["a[b"]⟩)) = true ∧
-    roundTripModel ratCodec.toCodec (root3 (innerAB ⟨NIL, NIL, NIL, [], 0⟩ ⟨"1r2/x", []⟩)) = true := by decide +kernel
-
-/-! ### fix 331c4ae (writer, root with a single neighbour): regression theorems -/
-
-def root1 : T := .node ⟨"R", ["rc"]⟩ 0 [innerAB ⟨1, 1/2, NIL, [], 0⟩ ⟨"", []⟩]
+/-! ### fix 331c4ae (writer, root with a single neighbour) -/
 
 example : WF01r ratCodec.isFloat ratCodec.dom root1 = true := by decide +kernel
 example : String.ofList (Newick.write ratCodec.toCodec root1) = "((a,b)1r2:1r1)R[rc];" := by decide +kernel
+example : roundTripModel goCodec root1 = true := control_go.2.2.2
 
-/-- with the writer as it is now a root with one child round-trips (instance of `parse_write_gen`) … -/
-theorem root1_roundtrip : roundTripModel ratCodec.toCodec root1 = true := by decide +kernel
+/-! ### every clause of the quantifier is needed — for the codec the driver runs -/
 
-/-- … while the text of the writer pinned before the fix, "(a,b)1r2:1r1R[rc];", is not read back as the tree. -/
-theorem writePinned_root1_fails :
-    (match Newick.parse ratCodec.toCodec (Newick.writePinned ratCodec.toCodec root1) with
-     | .ok t' => sameTree root1 t'
-     | _ => false) = false := by decide +kernel
+/-- Thirteen trees that each drop ONE clause of WF01 and on which the model's own round trip, with the
+    executable codec `goCodec`, fails (tip with trailing / leading blank, numeric and float/float inner name,
+    two branch comments, branch comment without length, name + support, p-value without support, support on
+    a tip branch, `]` in a comment, metacharacter in a name — also inside quotes —, numeric root name). -/
+theorem quantifier_clauses_needed :
+    roundTripModel goCodec (root3 (leafE NIL "x ")) = false ∧
+    roundTripModel goCodec (root3 (leafE NIL " x")) = false ∧
+    roundTripModel goCodec (root3 (innerAB ⟨NIL, NIL, NIL, [], 0⟩ ⟨"12", []⟩)) = false ∧
+    roundTripModel goCodec (root3 (innerAB ⟨NIL, NIL, NIL, [], 0⟩ ⟨"0.5/0.25", []⟩)) = false ∧
+    roundTripModel goCodec (root3 (innerAB ⟨1, NIL, NIL, ["x", "y"], 0⟩ ⟨"", []⟩)) = false ∧
+    roundTripModel goCodec (root3 (innerAB ⟨NIL, NIL, NIL, ["x"], 0⟩ ⟨"", []⟩)) = false ∧
+    roundTripModel goCodec (root3 (innerAB ⟨NIL, 1/2, NIL, [], 0⟩ ⟨"N", []⟩)) = false ∧
+    roundTripModel goCodec (root3 (innerAB ⟨NIL, NIL, 1/2, [], 0⟩ ⟨"", []⟩)) = false ∧
+    roundTripModel goCodec (root3 (⟨NIL, 1/2, NIL, [], 0⟩, T.leaf "x")) = false ∧
+    roundTripModel goCodec (root3 (innerAB ⟨NIL, NIL, NIL, [], 0⟩ ⟨"", ["a]b"]⟩)) = false ∧
+    roundTripModel goCodec (root3 (leafE NIL "x:y")) = false ∧
+    roundTripModel goCodec (root3 (leafE NIL "'x,y'")) = false ∧
+    roundTripModel goCodec (.node ⟨"1e5", []⟩ 0 [leafE NIL "a", leafE NIL "b"]) = false := needs_go
+
+/-! ### the hypotheses of the theorems for the executable codec are satisfiable -/
+
+/-- `exTreeGo` carries 0.1, 0.30000000000000004, a sub-normal (1e-320), the largest float64, 1e21, -1.25 -/
+example : WF01 goCodec.isFloat isF64 exTreeGo = true := by decide +kernel
+example : WF01 goCodec.isFloat goDomS exTreeGo = true := by decide +kernel
+example : Newick.parse goCodec (Newick.write goCodec exTreeGo) = .ok exTreeGo.normIds :=
+  parse_write_goS exTreeGo (by decide +kernel)
+example : ((Newick.write goCodec exTreeGo).take 60) =
+    "((a:17976931348623157000000000000000000000000000000000000000".toList := by decide +kernel
+
+/-- Non-vacuity of `parse_write_goS`: a WF01 tree of genuinely non-dyadic-short float64 values inside `goDomS`. -/
+theorem parse_write_goS_nonvacuous :
+    ∃ t : T, WF01 goCodec.isFloat goDomS t = true ∧ WF01 goCodec.isFloat isF64 t = true ∧
+      Newick.parse goCodec (Newick.write goCodec t) = .ok t.normIds :=
+  ⟨exTreeGo, by decide +kernel, by decide +kernel, parse_write_goS exTreeGo (by decide +kernel)⟩
 
 /-! ### the hypotheses are satisfiable (lawful codec `ratCodec`, a non-trivial tree) -/
-
-/-- unrooted, a multifurcation, support/p-value next to two node comments and a branch comment, an inner
-    name with a slash, a numeric-looking tip, a blank inside a tip name, absent / zero / negative / fractional
-    lengths, root name and root comment, non-zero parent position and arbitrary branch ids -/
-def exTree : T :=
-  .node ⟨"root", ["rc"]⟩ 0
-    [ (⟨3, 9/10, 1/20, ["bc"], 7⟩, .node ⟨"", ["c1", "c;2"]⟩ 0
-        [ (⟨1/2, NIL, NIL, [], 0⟩, T.leaf "a"), (⟨NIL, NIL, NIL, [], 0⟩, T.leaf "b c"), (⟨0, NIL, NIL, [], 0⟩, T.leaf "100") ]),
-      (⟨NIL, NIL, NIL, [], 3⟩, .node ⟨"N1/x", []⟩ 2 [ (⟨2, NIL, NIL, ["k"], 0⟩, T.leaf "c"), (⟨NIL, NIL, NIL, [], 0⟩, T.leaf "d") ]),
-      (⟨-5/4, NIL, NIL, [], 0⟩, T.leaf "e") ]
 
 example : WF01 ratCodec.isFloat ratCodec.dom exTree = true := by decide +kernel
 example : String.ofList (Newick.write ratCodec.toCodec exTree) =
